@@ -17,8 +17,13 @@ def run(ctx):
     known = load_known("C04")
     results, states, trans, nvec = [], 0, 0, 0
     samples = []
-    for u in ("args", "elts", "stmts", "multi"):
-        vecs, subj, nsub = fr.universe_vectors(ctx, u, bounds if u != "multi" else dict(maxargs=2, maxlist=4 if quick else 5), "C04")
+    for u in ("args", "elts", "stmts", "multi", "params", "fields"):
+        b = bounds
+        if u == "multi":
+            b = dict(maxargs=2, maxlist=4 if quick else 5)
+        elif u in ("params", "fields"):
+            b = dict(maxargs=3, maxlist=3 if quick else 4)
+        vecs, subj, nsub = fr.universe_vectors(ctx, u, b, "C04")
         nvec += len(vecs)
         res = fr.replay_and_judge(ctx, u, vecs, subj, shards=16)
         results += res
@@ -32,6 +37,6 @@ def run(ctx):
             trans += r["states"]
     cov = dict(states=states, transitions=trans, traces_validated_against_impl=st["cases"], samples=samples,
                exhaustive=True, evaluations=st["cases"], model_drift_cases=st["drift"],
-               rule="every pattern list over {a,b,x,...} up to length %(maxargs)d with >=1 elision (no adjacent elisions) x every list over {a,b} up to length %(maxlist)d, in call arguments, composite-literal elements and statement blocks; one recorded execution per pattern (all lists as sites of one file)" % bounds,
+               rule="every pattern list over {a,b,x,...} up to length %(maxargs)d with >=1 elision (no adjacent elisions) x every list over {a,b} up to length %(maxlist)d, in call arguments, composite-literal elements, statement blocks, parameter lists and struct field lists (the last two with one elision per list); one recorded execution per pattern (all lists as sites of one file)" % bounds,
                cases_failing=st["failing"], sites_failed=st["sites_failed"])
     return ctx.finish("model_checking", cov, ASSUME)
